@@ -6,3 +6,8 @@ namespace verif_use {
 void t_tokenize(const std::string &s, const char d, vector_string &out) { rkcommon::utility::tokenize(s, d, out); }
 vector_string t_split_set(const std::string &s, const std::string &d, const bool keep) { return rkcommon::utility::split(s, d, keep); }
 }
+namespace verif_use {
+vector_string t_split_char(const std::string &s, char d) { return rkcommon::utility::split(s, d); }
+std::string t_lowerCase(const std::string &s) { return rkcommon::utility::lowerCase(s); }
+std::string t_upperCase(const std::string &s) { return rkcommon::utility::upperCase(s); }
+}
